@@ -43,32 +43,12 @@ Theorem c11_msg_rejects_iff : forall bs,
    end).
 Proof. exact msg_rejects_iff. Qed.
 
-(* serialise then parse: same header, same length; any payload may follow.
-   Proved for headers with AT MOST ONE of the two extensions (single_extb): the faithful model of
-   UtpHeader::serialize writes a malformed chain when both are present (next_ext_pos = offset + 1),
-   see c11_roundtrip_refuted_both_ext / c11_both_ext_malformed below. *)
+(* serialise then parse: same header, same length; any payload may follow *)
 Theorem c11_roundtrip : forall h buflen payload,
-  hdr_okb h = true -> single_extb h = true -> ser_len h <= buflen -> bytes_okb payload = true ->
+  hdr_okb h = true -> ser_len h <= buflen -> bytes_okb payload = true ->
   exists bs, serialize h buflen = Some bs /\ Zlength bs = ser_len h /\
              deserialize (bs ++ payload) = Some (h, ser_len h).
 Proof. exact roundtrip. Qed.
-
-(* REFUTED for "any header": witness with SACK and close reason both present *)
-Theorem c11_roundtrip_refuted_both_ext :
-  exists h, hdr_okb h = true /\
-            option_map deserialize (serialize h 1024) <> Some (Some (h, ser_len h)) /\
-            option_map msg_deserialize (serialize h 1024) = Some MsgNone.
-Proof. exact roundtrip_refuted_both_ext. Qed.
-
-(* ... and it fails for EVERY representable header with both extensions: the 36 bytes written
-   parse back to a different header (no close reason, boundary 25), and unless the type is
-   ST_DATA the datagram is rejected at message level *)
-Theorem c11_both_ext_malformed : forall h buflen,
-  hdr_wfb h = true -> single_extb h = false -> ser_len h <= buflen ->
-  exists bs h', serialize h buflen = Some bs /\ Zlength bs = 36 /\
-                deserialize bs = Some (h', 25) /\ e_close (h_ext h') = None /\ h' <> h /\
-                (h_type h <> ST_DATA -> msg_deserialize bs = MsgNone).
-Proof. exact both_ext_malformed. Qed.
 
 Theorem c11_serialize_err_iff : forall h buflen, serialize h buflen = None <-> buflen < 20.
 Proof. exact serialize_err. Qed.
@@ -76,8 +56,7 @@ Proof. exact serialize_err. Qed.
 (* boundary of "any header": a parsed header (SACK of any bit-length) reaches the 64-bit normal
    form in one serialise/parse round and is stable afterwards *)
 Theorem c11_reserialize_normalises : forall bs h n buflen,
-  bytes_okb bs = true -> deserialize bs = Some (h, n) -> single_extb h = true ->
-  ser_len h <= buflen ->
+  bytes_okb bs = true -> deserialize bs = Some (h, n) -> ser_len h <= buflen ->
   exists bs', serialize h buflen = Some bs' /\
               deserialize bs' = Some (normalise h, ser_len h) /\
               hdr_okb (normalise h) = true /\
@@ -122,7 +101,7 @@ Theorem c11_msg_model_ok : forall bs,
 Proof. exact msg_model_ok. Qed.
 
 Theorem c11_ser_model_ok : forall h buflen,
-  hdr_wfb h = true -> single_extb h = true -> c11_ser_ok h buflen (serialize h buflen) = true.
+  hdr_wfb h = true -> c11_ser_ok h buflen (serialize h buflen) = true.
 Proof. exact ser_model_ok. Qed.
 
 Theorem c11_ser_ok_full : forall h buflen bs,
@@ -148,8 +127,6 @@ Print Assumptions c11_parsed_in_range.
 Print Assumptions c11_msg_payload_rule.
 Print Assumptions c11_msg_rejects_iff.
 Print Assumptions c11_roundtrip.
-Print Assumptions c11_roundtrip_refuted_both_ext.
-Print Assumptions c11_both_ext_malformed.
 Print Assumptions c11_serialize_err_iff.
 Print Assumptions c11_reserialize_normalises.
 Print Assumptions c11_roundtrip_refuted_without_len64.
